@@ -1,2 +1,2 @@
 """Sidecar contracts for the real functions of /repo/cgsmiles (nothing is written into /repo)."""
-from . import c_resolve, c_write, c_read, c_utils, c_coords, c_graph_utils, c_sample  # noqa
+from . import c_resolve, c_write, c_read, c_utils, c_coords, c_graph_utils, c_sample, c_pysmiles  # noqa
